@@ -81,6 +81,9 @@ pub struct Case {
     /// `OtherFile` operations): whatever state the library shares between files is exercised
     /// inside one run, so a failure that needs it replays from the run alone
     pub others: Vec<String>,
+    /// the text handed to the library starts this many bytes into an (8-byte aligned) buffer:
+    /// word-at-a-time scanners treat the unaligned head of a slice separately
+    pub align: u8,
 }
 
 // ------------------------------------------------------------------------------------------
@@ -124,6 +127,7 @@ counters!(
     fault_restart_torn_other,
     fault_by_value_consumption,
     fault_high_base_offset,
+    fault_unaligned_text_address,
     probe_back_crlf_trim,
     probe_back_lone_cr,
     probe_back_lone_lf,
@@ -189,7 +193,7 @@ pub fn generate(seed: u64, config: u64, scale_arg: u32) -> Case {
     let scale = scale_arg.max(1); // scale 0 (Miri): as 1, no big texts
     if big && scale_allows_big(scale_arg) {
         // rare size classes (very long line, very many lines, beyond 2^16 bytes, 2^k line lengths)
-        text = crate::bigtext::gen_big_text(&mut r);
+        text = crate::bigtext::gen_big_text_scaled(&mut r, scale_arg > 1);
     } else if style < 25 {
         // dense small scope over the raw 6-symbol alphabet
         let n = r.below(6);
@@ -307,12 +311,14 @@ pub fn generate(seed: u64, config: u64, scale_arg: u32) -> Case {
             others.push(t);
         }
     }
+    let align = if r.chance(1, 2) { r.below(8) as u8 } else { 0 };
     Case {
         text,
         base,
         trailing,
         ops,
         others,
+        align,
     }
 }
 
@@ -1844,11 +1850,21 @@ impl<'t, 's> Exec<'t, 's> {
 }
 
 pub fn execute(case: &Case, stats: &mut Stats) -> Outcome {
-    let text: &str = &case.text;
+    // the text as the library sees it: a slice that starts `align` bytes into a buffer
+    let mut buf = String::with_capacity(case.text.len() + 8);
+    for _ in 0..case.align {
+        buf.push('#');
+    }
+    buf.push_str(&case.text);
+    let text: &str = &buf[case.align as usize..];
+    if case.align > 0 {
+        stats.bump(C::fault_unaligned_text_address as usize);
+    }
     let mut dg = Digest::default();
     dg.str(text);
     dg.word(case.base as u64);
     dg.byte(case.trailing as u8);
+    dg.byte(case.align);
     for o in &case.others {
         dg.str(o);
     }
@@ -1980,6 +1996,42 @@ pub fn execute(case: &Case, stats: &mut Stats) -> Outcome {
             });
         }
     }
+    // post-run: every handle (direct index, lazily indexed file, pre-indexed file, clones) agrees
+    // with the model on the shape of the text, whatever the history did with them
+    if violation.is_none() {
+        let n_rows = ex.rows.len();
+        let (ls, le) = ex.rows[n_rows - 1];
+        for h in 0..ex.handles.len() {
+            ex.cur = h;
+            let got = guarded(|| {
+                ex.source_code(|sc| {
+                    let last = OneIndexed::from_zero_indexed(n_rows as u32 - 1);
+                    (sc.line_count(), sc.line_start(last).to_usize(), sc.line_end(last).to_usize())
+                })
+            });
+            match got {
+                Ok(g) if g == (n_rows, ls, le) => {}
+                Ok(g) => {
+                    violation = Some(Violation {
+                        class: "step-mismatch".into(),
+                        site: "HandlesAtEnd".into(),
+                        step: case.ops.len(),
+                        detail: format!("handle #{h}: (line_count, start and end of the last row) = {:?}, model {:?}", g, (n_rows, ls, le)),
+                    });
+                    break;
+                }
+                Err(p) => {
+                    violation = Some(Violation {
+                        class: format!("panic:{}", panic_class(&p)),
+                        site: "HandlesAtEnd".into(),
+                        step: case.ops.len(),
+                        detail: p,
+                    });
+                    break;
+                }
+            }
+        }
+    }
     // small-scope coverage bookkeeping
     if let Some(id) = small_text_id(text) {
         ex.stats.bump(C::runs_small_scope as usize);
@@ -2089,6 +2141,9 @@ pub fn shrink(case: &Case) -> Vec<Case> {
     if case.trailing {
         out.push(Case { trailing: false, ..case.clone() });
     }
+    if case.align > 0 {
+        out.push(Case { align: 0, ..case.clone() });
+    }
     for i in 0..case.others.len() {
         let mut c = case.clone();
         c.others.remove(i);
@@ -2145,6 +2200,7 @@ pub fn case_size(case: &Case) -> usize {
         + (case.base != 0) as usize * 300
         + (case.base > 1000) as usize * 64
         + case.trailing as usize * 200
+        + case.align as usize * 20
         + case.others.len() * 2000
         + case.others.iter().map(|o| o.len() * 1000 + o.chars().filter(|c| !matches!(c, 'a' | '\n')).count() * 10).sum::<usize>()
         + case.text.chars().filter(|c| !matches!(c, 'a' | '\n')).count() * 10
@@ -2155,6 +2211,7 @@ pub fn case_to_json(case: &Case) -> J {
         ("text", case.text.as_str().into()),
         ("base_offset", case.base.into()),
         ("trailing_variant", case.trailing.into()),
+        ("text_starts_at_buffer_offset", (case.align as u32).into()),
         ("other_files", J::Arr(case.others.iter().map(|o| J::Str(o.clone())).collect())),
         (
             "ops",
@@ -2184,7 +2241,8 @@ pub fn case_from_json(j: &J) -> Result<Case, String> {
         .and_then(J::as_arr)
         .map(|a| a.iter().filter_map(|x| x.as_str().map(str::to_string)).collect())
         .unwrap_or_default();
-    Ok(Case { text, base, trailing, ops, others })
+    let align = j.get("text_starts_at_buffer_offset").and_then(J::as_u64).unwrap_or(0) as u8;
+    Ok(Case { text, base, trailing, ops, others, align })
 }
 
 pub struct HistLayer;
@@ -2233,6 +2291,7 @@ impl Layer for HistLayer {
                 C::fault_restart_torn_other as usize,
                 C::fault_by_value_consumption as usize,
                 C::fault_high_base_offset as usize,
+                C::fault_unaligned_text_address as usize,
                 C::probe_window_starts_with_torn_lf as usize,
                 C::probe_range_end_near_u32_max as usize,
             ]);
